@@ -123,6 +123,7 @@ func runC15(c *Check) {
 	LostReceiverStores(c, "C15.CFG", "components/cqrs")
 	DefaultsApplied(c, "C15.CFG", "components/cqrs")
 	OptionalHooksGuarded(c, "C15.CFG", "components/cqrs")
+	StepFailuresReported(c, "C15.CFG", "components/cqrs")
 	P := "C15"
 	c15Names(c, P)
 	// the codecs the processors and buses rely on (decided as C16.O5): Unmarshal always runs the decoder
